@@ -32,7 +32,8 @@ FLOORS = {
     "quick": {"segmented-executions": 30000, "segmented-executions-with-client-debug": 8000,
               "segmented-executions-over-tls": 15000, "segmented-executions-on-a-slow-link": 5000,
               "executions-on-a-client-with-a-broken-off-literal-behind-it": 1500, "cut-inside-literal": 3000, "streams": 150,
-              "boundary-streams-exact-multiple-of-read-size": 12},
+              "boundary-streams-exact-multiple-of-read-size": 12,
+              "big-literals-on-a-client-that-read-a-big-literal-before": 5},
     "thorough": {"segmented-executions": 1500000,
                  "segmented-executions-with-client-debug": 300000,
                  "segmented-executions-over-tls": 400000, "cut-inside-literal": 100000,
@@ -130,6 +131,13 @@ def execute(op, args, stream, seg, connect_stream=None, debug=False, tls=False, 
         sess.seg = ms.Seg()
         sess.wire = ms.Wire()
         r = sess.connect("user", "pw", starttls=True) if tls else sess.connect("user", "pw")
+        if r == ("ret", True):
+            # ... and, on this connection, an earlier big reply that was read completely (a
+            # script of 6000 octets, larger than the client's read size, delivered whole)
+            srv.canned = [b"{6000}\r\n" + b"# earlier script\r\n" * 333 + b"#567\r\n" + b"\r\nOK\r\n"]
+            early = sess.call("getscript", "earlier")
+            if early[0] != "ret" or not isinstance(early[1], str) or len(early[1]) < 5000:
+                return None
     else:
         sess, r = mslab.authed_session(srv, debug=debug, starttls=tls)
     if r != ("ret", True):
@@ -287,6 +295,13 @@ def run_replies(shard, res: Result, tier):
         if op in ("getscript", "listscripts", "capability"):
             runs += [(k, p, False, False, False, True) for k, p in [("cap", 64), ("cap", 4096)] +
                      [sg for sg in segs if sg[0] == "cut"][::4]]
+            if any(e - a > 4096 for a, e in spans):
+                # a big literal after the earlier big one: delivery that ends exactly behind
+                # the size line (nothing of the literal buffered yet), and tiny reads
+                runs += [(k, p, False, False, False, True) for k, p in
+                         [("cut", (a,)) for a, e in spans if e - a > 4096] +
+                         [("cap", 1), ("cap", 2), ("cap", 8)]]
+                res.count("big-literals-on-a-client-that-read-a-big-literal-before")
         for kind, p, debug, tls, slow, past in runs:
             got = execute(op, args, stream, mkseg(kind, p), debug=debug, tls=tls, slow=slow,
                           past=past)
